@@ -60,6 +60,12 @@ class MainDomain(TermDomain):
             if not self.io_fail:
                 return [(ok(UNIT), st)]
             return [(ok(UNIT), st), (err(Sym("emit_error")), self.with_log(st, ("fail", "emit")))]
+        if name.startswith("anything::query::Parsed::") and name.endswith("::emit"):
+            # --syntax: the tree dump is written to stdout; its failure is an I/O failure like any other write
+            st = self.with_log(store, ("emit-syntax",))
+            if not self.io_fail:
+                return [(ok(UNIT), st)]
+            return [(ok(UNIT), st), (err(Sym("emit_error")), self.with_log(st, ("fail", "emit")))]
         if name in ("std::process::exit", "std::process::abort"):
             return [("panic", self.with_log(store, ("exit",)))]
         if name == "<I as std::iter::IntoIterator>::into_iter" and vals and isinstance(vals[0], Sym):
@@ -249,7 +255,7 @@ def run(fx, rep, tier, shares=True):
                 key = "early-exit:%s%s" % (fails[-1][1] if fails else "unknown", tag)
                 if key not in seen or not okk:
                     seen.add(key)
-                    rep.ob("C19-R1", key, okk, "main returns Err after %s" % (fails[-1:] or "no recorded failure"), o.site)
+                    rep.ob("C19-R1", key, okk, "main returns Err after %s%s" % (fails[-1:] or "no recorded failure", "" if okk else " (value %s)" % repr(v)[:200]), o.site)
         rep.floor("C19-R2", "distinct Ok-line classes", n_ok_lines, 6)
         # two results: after an Err (or Ok) result without I/O failure the iterator is asked again
         cont = {"ok": [0, 0], "err": [0, 0]}
@@ -326,6 +332,8 @@ def run(fx, rep, tier, shares=True):
         rep.obls.append(o)
     r7_unit_exponent(facts, rep)
     r8_compound_display(facts, rep)
+    r9_unit_display(facts, rep)
+    r10_unit_names(facts, rep)
 
 
 # ---- the exponent of a displayed unit ----------------------------------------------------------------------------------
@@ -337,9 +345,12 @@ def _unit_display_body(facts):
     return hits[0] if len(hits) == 1 else None
 
 
-def _udisp_run(facts, body, power, stops=(), start=None):
+def _udisp_run(facts, body, power, stops=(), start=None, skip=(), helper=False):
     from ..absint.term import EffectDomain
     def oracle(dom, it, name, args, vals, store):
+        if name in skip:
+            # a helper that carries the digit loop itself: looked at on its own (with its parameters arbitrary)
+            return [(ok(UNIT), dom.with_log(store, ("helper", name)))]
         if name == "prefix::Prefix::find":
             return [(Agg("tuple", None, None, None, (Sym("prefix"), Sym("extra"))), store)]
         if name == "unit::Unit::format_suffix":
@@ -360,6 +371,8 @@ def _udisp_run(facts, body, power, stops=(), start=None):
     it = core.Interp(facts, dom, budget=60000)
     if start is not None:
         return dom, it, it.run(body, [], {}, start=start, stop=set(stops))
+    if helper:
+        return dom, it, it.run(body, [Sym("arg%d" % i) for i in range(body.arg_count)], {}, stop=set(stops))
     st = {}
     st, dref = it.fresh_slot(st, Agg("adt", "compound::State", 0, "State", (power, Sym("pfx"))))
     st, uref = it.fresh_slot(st, Sym("unit"))
@@ -400,8 +413,15 @@ def r7_unit_exponent(facts, rep, rule="C19-R7"):
         rep.ob(rule, "anchor:unit::Display::fmt", False, "the Display impl of unit::Display was not found")
         return
     # (a) the digit table
-    digit_fns = sorted({n for b, t, sp, n in body.calls() if facts.fn(n) is not None and facts.fn(n).arg_count == 1
-                        and facts.fn(n).local_ty(1) == "u32" and facts.fn(n).local_ty(0) == "char"})
+    def is_digit_fn(n):
+        fb_ = facts.fn(n)
+        return fb_ is not None and fb_.arg_count == 1 and fb_.local_ty(1) == "u32" and fb_.local_ty(0) == "char"
+    # the functions that apply the digit function: Display::fmt itself and helpers only it uses (a split-off `fmt_power`)
+    from ..callgraph import CallGraph
+    own = CallGraph(facts).exclusive(body.path)
+    carriers = [body] + [facts.fn(p) for p in sorted(own) if facts.fn(p) is not None and p != body.path and not is_digit_fn(p)
+                         and any(is_digit_fn(n) for b_, t_, sp_, n in facts.fn(p).calls())]
+    digit_fns = sorted({n for c_ in carriers for b, t, sp, n in c_.calls() if is_digit_fn(n)})
     for fn in digit_fns:
         fb = facts.fn(fn)
         for d in range(10):
@@ -416,20 +436,23 @@ def r7_unit_exponent(facts, rep, rule="C19-R7"):
             rep.ob(rule, "digit-table:%s:%d" % (fn, d), got == [ord(SUPER[d])],
                    "%s(%d) = %s (expected %r)" % (fn, d, [chr(g) if isinstance(g, int) else g for g in got], SUPER[d]), fb.site())
     # (b) call-site domain
-    heads = L.loop_heads(body)
     segs = []
+    skip = tuple(c_.path for c_ in carriers[1:])
     try:
-        dom, it, outs = _udisp_run(facts, body, Sym("power"), stops=heads)
-        segs.append(("entry", dom, outs))
-        for o in list(outs):
-            if o.kind != "stop":
-                continue
-            st = dict(o.store)
-            for l in L.variant_locals(body, o.value):
-                ty = body.local_ty(l)
-                st = it.write_ref(st, core.Ref(1, l), Sym("L%d" % l) if ty in ("u32", "i32", "usize") else TOP)
-            dom2, it2, outs2 = _udisp_run(facts, body, None, stops=heads, start=(o.value, st))
-            segs.append(("loop@%d" % o.value, dom2, outs2))
+        for c_ in carriers:
+            heads = L.loop_heads(c_)
+            tagp = "" if c_ is body else c_.path + ":"
+            dom, it, outs = _udisp_run(facts, c_, Sym("power"), stops=heads, skip=[p for p in skip if p != c_.path], helper=c_ is not body)
+            segs.append((tagp + "entry", dom, outs))
+            for o in list(outs):
+                if o.kind != "stop":
+                    continue
+                st = dict(o.store)
+                for l in L.variant_locals(c_, o.value):
+                    ty = c_.local_ty(l)
+                    st = it.write_ref(st, core.Ref(1, l), Sym("L%d" % l) if ty in ("u32", "i32", "usize") else TOP)
+                dom2, it2, outs2 = _udisp_run(facts, c_, None, stops=heads, start=(o.value, st), skip=[p for p in skip if p != c_.path])
+                segs.append((tagp + "loop@%d" % o.value, dom2, outs2))
     except core.Undecided as e:
         rep.ob(rule, "call-sites", False, "undecided: %s" % e, body.site())
         segs = []
@@ -575,3 +598,207 @@ def r8_compound_display(facts, rep, rule="C19-R8"):
                 n += 1
                 rep.ob(rule, key, not bad and n_ok >= 1, "; ".join(sorted(set(bad))[:2]) if bad else "as specified (%d path(s))" % n_ok, body.site())
     rep.floor(rule, "sign patterns x pluralize", n, 30)
+
+
+def _unit_display_run(facts, body, power, n, plural):
+    """Summary of unit::Display::fmt for one unit with a symbolic identity and prefix, a concrete power and sign."""
+    from ..absint.term import EffectDomain
+
+    def oracle(dom, it, name, args, vals, store):
+        if name == "prefix::Prefix::find":
+            return [(Agg("tuple", None, None, None, (Sym("found_prefix"), Sym("found_extra"))), dom.with_log(store, ("find", vals[0])))]
+        if name == "unit::Unit::prefix_bias":
+            return [(T("bias", vals[0]), store)]
+        if name == "unit::Unit::format_suffix" and len(vals) == 3:
+            return [(ok(UNIT), dom.with_log(store, ("suffix", vals[0], vals[2]))), (err(Sym("fmt_error")), dom.with_log(store, ("fail",)))]
+        if name.endswith("::write_char") and len(vals) == 2:
+            c = vals[1]
+            return [(ok(UNIT), dom.with_log(store, ("lit", chr(c.v) if isinstance(c, Const) and isinstance(c.v, int) else repr(c)))),
+                    (err(Sym("fmt_error")), dom.with_log(store, ("fail",)))]
+        if name.endswith("::write_str") and len(vals) == 2:
+            return [(ok(UNIT), dom.with_log(store, ("lit", vals[1].v if isinstance(vals[1], Const) else repr(vals[1])))),
+                    (err(Sym("fmt_error")), dom.with_log(store, ("fail",)))]
+        if name.endswith("::write_fmt") and len(vals) == 2:
+            f = vals[1]
+            if isinstance(f, T) and f.op == "fmt" and isinstance(f.args[0], Const):
+                st, k = store, 1
+                for x in f.args[0].v:
+                    if isinstance(x, str):
+                        if x:
+                            st = dom.with_log(st, ("lit", x))
+                    else:
+                        st = dom.with_log(st, ("arg", repr(f.args[k]) if k < len(f.args) else "?"))
+                        k += 1
+                return [(ok(UNIT), st), (err(Sym("fmt_error")), dom.with_log(st, ("fail",)))]
+        if name.endswith(" as std::fmt::Display>::fmt") and len(vals) == 2:
+            v = vals[0]
+            if isinstance(v, Const):
+                return [(ok(UNIT), dom.with_log(store, ("lit", chr(v.v) if isinstance(v.v, int) else v.v))), (err(Sym("fmt_error")), dom.with_log(store, ("fail",)))]
+            if isinstance(v, Sym):
+                return [(ok(UNIT), dom.with_log(store, ("arg", "display(%s)" % v.name))), (err(Sym("fmt_error")), dom.with_log(store, ("fail",)))]
+        return None
+    dom = EffectDomain({}, oracle=oracle)
+    dom.uninterp = lambda n_: facts.fn(n_) is None
+    it = core.Interp(facts, dom, budget=100000)
+    sadt = facts.adt("compound::State")
+    dadt = facts.adt("unit::Display")
+    stv = Agg("adt", "compound::State", 0, "State", tuple(Const(power) if f["name"] == "power" else Sym("pfx") for f in sadt["variants"][0]["fields"]))
+    st, sref = it.fresh_slot({}, stv)
+    st, uref = it.fresh_slot(st, Sym("unit"))
+    vals = []
+    for f in dadt["variants"][0]["fields"]:
+        ty = f["ty"]
+        vals.append(uref if "unit::Unit" in ty else sref if "State" in ty else Const(plural) if ty == "bool" else Const(n))
+    st, dref = it.fresh_slot(st, Agg("adt", "unit::Display", 0, "Display", tuple(vals)))
+    return dom, it.run(body, [dref, Sym("f")], st)
+
+
+SUPER = "⁰¹²³⁴⁵⁶⁷⁸⁹"
+
+
+def r9_unit_display(facts, rep, rule="C19-R9"):
+    rep.rule(rule, "the text of one unit (summary of unit::Display::fmt over a symbolic unit and prefix, powers 1, 2, 3, 12 and "
+                   "their negatives under n = -1, pluralize on and off): Prefix::find is asked for the stored prefix plus the "
+                   "unit's bias; the prefix it returns is written first (behind 'e<extra>' iff extra is not zero), then the "
+                   "unit's own name with the pluralize flag passed on unchanged, then the power times n in superscript digits "
+                   "unless it is one - nothing else")
+    hits = [b for b in facts.all if b.promoted < 0 and b.path.startswith("<unit::Display") and b.path.endswith(" as std::fmt::Display>::fmt")]
+    sadt = facts.adt("compound::State")
+    dadt = facts.adt("unit::Display")
+    if len(hits) != 1 or sadt is None or dadt is None or "power" not in [f["name"] for f in sadt["variants"][0]["fields"]]:
+        rep.ob(rule, "anchor:unit::Display::fmt", False, "the Display impl of unit::Display (or the State it reads) was not found")
+        return
+    body = hits[0]
+    n_cases = 0
+    for power, n in ((1, 1), (2, 1), (3, 1), (12, 1), (-1, -1), (-2, -1), (-12, -1)):
+        for plural in (True, False):
+            key = "power=%d:n=%d:plural=%s" % (power, n, plural)
+            try:
+                dom, outs = _unit_display_run(facts, body, power, n, plural)
+            except core.Undecided as e:
+                rep.ob(rule, key, False, "undecided: %s" % e, body.site())
+                continue
+            shown = power * n
+            digits = [("lit", SUPER[int(c)]) for c in str(shown)] if shown != 1 else []
+            bad = []
+            seen_extra = set()
+            n_ok = 0
+            for o in outs:
+                if o.kind != "ret":
+                    bad.append("%s %s" % (o.kind, str(o.value)[:60]))
+                    continue
+                log = dom.log(o.store)
+                if any(e[0] == "fail" for e in log) or not (isinstance(o.value, Agg) and o.value.vi == 0):
+                    continue
+                n_ok += 1
+                zero = None
+                for p_, b_ in dom.pc(o.store):
+                    r_ = repr(p_)
+                    if "found_extra" in r_ and "Const(0)" in r_:
+                        zero = b_ if r_.startswith("Eq(") else (not b_ if r_.startswith("Ne(") else None)
+                seen_extra.add(zero)
+                got = [(e[0],) + tuple(repr(x) if not isinstance(x, str) else x for x in e[1:]) for e in log]
+                find_ok = got and got[0][0] == "find" and got[0][1] in ("i+(pfx, bias(unit))", "i+(bias(unit), pfx)")
+                rest = [g for g in got[1:]]
+                # literals may come char by char or joined
+                flat = []
+                for g in rest:
+                    if g[0] == "lit":
+                        flat.extend(("lit", c) for c in g[1])
+                    else:
+                        flat.append(g)
+                pre = [("arg", "display(found_prefix)")] if zero is True else [("lit", "e"), ("arg", "display(found_extra)"), ("arg", "display(found_prefix)")]
+                want = pre + [("suffix", "unit", "Const(%s)" % plural)] + digits
+                if not find_ok or flat != want or zero is None:
+                    bad.append("writes %s%s; specified find(prefix + bias), %s" % (got[:1] if not find_ok else "", flat, want))
+            n_cases += 1
+            rep.ob(rule, key, not bad and n_ok >= 1 and seen_extra == {True, False},
+                   "; ".join(sorted(set(bad))[:2]) if bad else ("as specified (%d path(s))" % n_ok if seen_extra == {True, False} else
+                                                              "the extra returned by Prefix::find is not distinguished from zero"), body.site())
+    rep.floor(rule, "power x pluralize cases", n_cases, 14)
+
+
+BASE_SYMBOLS = {"Second": "s", "KiloGram": "g", "Meter": "m", "Ampere": "A", "Kelvin": "K", "Mole": "mol", "Candela": "cd", "Byte": "B"}
+
+
+def r10_unit_names(facts, rep, rule="C19-R10"):
+    rep.rule(rule, "the name a unit is printed with (summary of Unit::format_suffix per variant): a base unit writes its SI symbol "
+                   "(the kilogram writes `g`: its prefix bias supplies the kilo), a derived unit calls its own table's format "
+                   "function with the formatter and the pluralize flag unchanged, and nothing else is written")
+    from ..absint.term import EffectDomain
+    body = facts.fn("unit::Unit::format_suffix")
+    uadt = facts.adt("unit::Unit")
+    dadt = facts.adt("unit::Derived")
+    vadt = facts.adt("unit::DerivedVtable")
+    if body is None or uadt is None or dadt is None or vadt is None:
+        rep.ob(rule, "anchor:unit::Unit::format_suffix", False, "Unit::format_suffix / Unit / Derived / DerivedVtable not found")
+        return
+
+    class Dom(EffectDomain):
+        def on_indirect(self, it, fval, args, store, term, frame):
+            if isinstance(fval, Sym):
+                vals = [it.read_ref(store, a) for a in args]
+                return [(ok(UNIT), self.with_log(store, ("indirect", fval.name) + tuple(vals))), (err(Sym("fmt_error")), self.with_log(store, ("fail",)))]
+            return None
+
+    def oracle(dom, it, name, args, vals, store):
+        if name.endswith("::write_char") and len(vals) == 2 and isinstance(vals[1], Const):
+            return [(ok(UNIT), dom.with_log(store, ("lit", chr(vals[1].v)))), (err(Sym("fmt_error")), dom.with_log(store, ("fail",)))]
+        if name.endswith("::write_str") and len(vals) == 2 and isinstance(vals[1], Const):
+            return [(ok(UNIT), dom.with_log(store, ("lit", vals[1].v))), (err(Sym("fmt_error")), dom.with_log(store, ("fail",)))]
+        if name.endswith("::write_fmt") and len(vals) == 2:
+            f = vals[1]
+            tpl = f.args[0].v if isinstance(f, T) and f.op == "fmt" and isinstance(f.args[0], Const) else None
+            if tpl is not None and all(isinstance(x, str) for x in tpl):
+                return [(ok(UNIT), dom.with_log(store, ("lit", "".join(tpl)))), (err(Sym("fmt_error")), dom.with_log(store, ("fail",)))]
+        if name.endswith(" as std::fmt::Display>::fmt") and len(vals) == 2 and isinstance(vals[0], Const):
+            v = vals[0].v
+            return [(ok(UNIT), dom.with_log(store, ("lit", chr(v) if isinstance(v, int) else v))), (err(Sym("fmt_error")), dom.with_log(store, ("fail",)))]
+        return None
+    n = 0
+    for vi, var in enumerate(uadt["variants"]):
+        for plural in (True, False):
+            key = "%s:plural=%s" % (var["name"], plural)
+            dom = Dom({}, oracle=oracle)
+            dom.uninterp = lambda n_: facts.fn(n_) is None
+            it = core.Interp(facts, dom, budget=40000)
+            st = {}
+            if var["fields"]:
+                vt = Agg("adt", "unit::DerivedVtable", 0, "DerivedVtable",
+                         tuple(Sym("vtable." + f["name"]) for f in vadt["variants"][0]["fields"]))
+                st, vref = it.fresh_slot(st, vt)
+                dv = Agg("adt", "unit::Derived", 0, "Derived", tuple(vref if "DerivedVtable" in f["ty"] else Sym("derived." + f["name"])
+                                                                       for f in dadt["variants"][0]["fields"]))
+                uv = Agg("adt", "unit::Unit", vi, var["name"], (dv,))
+            else:
+                uv = Agg("adt", "unit::Unit", vi, var["name"], ())
+            st, uref = it.fresh_slot(st, uv)
+            try:
+                outs = it.run(body, [uref, Sym("f"), Const(plural)], st)
+            except core.Undecided as e:
+                rep.ob(rule, key, False, "undecided: %s" % e, body.site())
+                continue
+            bad = []
+            n_ok = 0
+            for o in outs:
+                if o.kind != "ret":
+                    bad.append("%s %s" % (o.kind, str(o.value)[:60]))
+                    continue
+                log = dom.log(o.store)
+                if any(e[0] == "fail" for e in log) or not (isinstance(o.value, Agg) and o.value.vi == 0):
+                    continue
+                n_ok += 1
+                if var["fields"]:
+                    want = [("indirect", "vtable.format", Sym("f"), Const(plural))]
+                    got = [tuple(e) for e in log]
+                else:
+                    if var["name"] not in BASE_SYMBOLS:
+                        bad.append("a base unit %s the symbol table does not know" % var["name"])
+                        continue
+                    want = BASE_SYMBOLS[var["name"]]
+                    got = "".join(e[1] for e in log if e[0] == "lit") if all(e[0] == "lit" for e in log) else [tuple(e) for e in log]
+                if got != want:
+                    bad.append("writes %r; specified %r" % (got, want))
+            n += 1
+            rep.ob(rule, key, not bad and n_ok >= 1, "; ".join(sorted(set(bad))[:2]) if bad else "as specified", body.site())
+    rep.floor(rule, "unit variants x pluralize", n, 18)
